@@ -539,16 +539,7 @@ func VerifC31CalToFromDays() {
 	nd.Observe(got, want)
 	nd.Assert("c31c.todays.agrees-with-day-number", err == nil && ok && int64(got) == want)
 	back, err2 := NewFromDays(nil, expression.NewLiteral(want, types.Int64)).Eval(nil, nil)
-	// Defect class (daysToYear, sql/expression/function/days.go:185-189): on the
-	// last-but-one day of a leap year the remainder of the 4-year cycle is 1460 =
-	// 4*365, the year count goes one too far and FROM_DAYS returns 31 December for
-	// the day number of 30 December. The reference follows the code there; the
-	// class is asserted last under its own id.
-	if c31cLeap(y) && m == 12 && d == 30 {
-		nd.Assert("c31c.fromdays.dec-30-leap-year-as-coded", err2 == nil && c31cIsTime(back, c31cStamp{y: y, m: 12, d: 31}))
-		nd.Assert("c31c.fromdays.dec-30-of-leap-year", err2 == nil && c31cIsTime(back, c31cStamp{y: y, m: m, d: d}))
-		return
-	}
+	// (30 December of a leap year came back as 31 December before the repair of daysToYear.)
 	nd.Assert("c31c.fromdays.inverse-of-to-days", err2 == nil && c31cIsTime(back, c31cStamp{y: y, m: m, d: d}))
 }
 
